@@ -2,12 +2,13 @@
    Statements only (about the regenerated definitions C16_*_R), each followed by Print Assumptions.
    Guard of the property: 0 < a, flattening in [1e-6, 0.2], GM > 0, m = w^2 a^2 b/GM < 0.05, heights in [0, a/200];
    the semi-major axis is not restricted to [1e5, 1e8] (the theorems hold for every a > 0).
-   Parts a, b, c (C16_a.v, C16_b.v, C16_c.v) hold the statements whose proofs use the Interval enclosures of e'q0'/q0.
+   Parts a-d (C16_a.v .. C16_d.v) hold the statements whose proofs use the Interval enclosures of e'q0'/q0; this file's
+   dependency cone is Interval-free, so that coqchk (thorough tier, run on the last file) finishes in minutes.
    The f = 0 clause lives in C16_refuted.v (unchanged tree) or C16_sphere.v (tree with fixes/C16-sphere-branch.patch). *)
 From Coq Require Import Reals List Lra.
-From AhrsLib Require Import Base Geodesy.
+From AhrsLib Require Import Base GeodesyBase.
 From AhrsGen Require Import C16gen_R.
-From AhrsProps Require Import C16_model C16_gravity C16_formulas C16_bodies.
+From AhrsProps Require Import C16_algebra C16_formulas.
 Import ListNotations.
 Open Scope R_scope.
 
@@ -70,29 +71,6 @@ Theorem C16_welmec_gravity :
 Proof. exact welmec_ok. Qed.
 Print Assumptions C16_welmec_gravity.
 
-(* the shipped non-spherical bodies: general branch taken, gravity positive and inside a 6-digit window *)
-Theorem C16_shipped_bodies_positive :
-  (exists f m ge gp, C16_body_EARTH_R = Val [f; m; ge; gp] /\ 0 < f < 1/5 /\ 0 < ge /\ 0 < gp) /\
-  (exists f m ge gp, C16_body_MOON_R = Val [f; m; ge; gp] /\ 0 < f < 1/5 /\ 0 < ge /\ 0 < gp) /\
-  (exists f m ge gp, C16_body_MERCURY_R = Val [f; m; ge; gp] /\ 0 < f < 1/5 /\ 0 < ge /\ 0 < gp) /\
-  (exists f m ge gp, C16_body_MARS_R = Val [f; m; ge; gp] /\ 0 < f < 1/5 /\ 0 < ge /\ 0 < gp) /\
-  (exists f m ge gp, C16_body_JUPITER_R = Val [f; m; ge; gp] /\ 0 < f < 1/5 /\ 0 < ge /\ 0 < gp) /\
-  (exists f m ge gp, C16_body_SATURN_R = Val [f; m; ge; gp] /\ 0 < f < 1/5 /\ 0 < ge /\ 0 < gp) /\
-  (exists f m ge gp, C16_body_URANUS_R = Val [f; m; ge; gp] /\ 0 < f < 1/5 /\ 0 < ge /\ 0 < gp) /\
-  (exists f m ge gp, C16_body_NEPTUNE_R = Val [f; m; ge; gp] /\ 0 < f < 1/5 /\ 0 < ge /\ 0 < gp).
-Proof.
-  repeat split;
-  [ destruct body_EARTH as (f & m & ge & gp & H & Hf & _ & Hg & Hp)
-  | destruct body_MOON as (f & m & ge & gp & H & Hf & _ & Hg & Hp)
-  | destruct body_MERCURY as (f & m & ge & gp & H & Hf & _ & Hg & Hp)
-  | destruct body_MARS as (f & m & ge & gp & H & Hf & _ & Hg & Hp)
-  | destruct body_JUPITER as (f & m & ge & gp & H & Hf & _ & Hg & Hp)
-  | destruct body_SATURN as (f & m & ge & gp & H & Hf & _ & Hg & Hp)
-  | destruct body_URANUS as (f & m & ge & gp & H & Hf & _ & Hg & Hp)
-  | destruct body_NEPTUNE as (f & m & ge & gp & H & Hf & _ & Hg & Hp) ];
-  exists f, m, ge, gp; (split; [exact H|split; [exact Hf|split; lra]]).
-Qed.
-Print Assumptions C16_shipped_bodies_positive.
 
 (* non-vacuity: WGS84-like parameters satisfy every hypothesis used above *)
 Example C16_nonvacuous :
